@@ -233,7 +233,11 @@ LOADED = ['\\', '#', '{', '}', '[', ']', ':', '*', ' ', '%', "'", '-']
 
 
 def names():
-    chars = [chr(c) for c in range(32, 256) if chr(c) not in '"\n\r' and chr(c).isprintable()]
+    # every character of Latin-1 except NUL, the double quote and the two line-break characters -- control
+    # characters and the separators that str.splitlines() knows (VT, FF, FS, GS, RS, NEL) included -- and a few
+    # beyond Latin-1 (LINE/PARAGRAPH SEPARATOR, CJK, an astral-plane character)
+    chars = [chr(c) for c in range(1, 256) if chr(c) not in '"\n\r'] + ['\u2028', '\u2029', '\u4e2d', '\U0001F600']
+    yield ''              # a light without a name (the protocol allows an empty label)
     for c in chars:
         for nm in ('x' + c + 'y', c + 'y', 'x' + c, c):
             yield nm
@@ -248,7 +252,7 @@ def _worker_names(rank, n, tier):
     for i, nm in enumerate(names()):
         if i % n != rank:
             continue
-        if not nm.strip():
+        if nm == '' and i != 0:
             continue
         for kind in ('plain', 'strip2', 'matrix1x1'):
             base = KINDS[kind](nm)
@@ -259,6 +263,8 @@ def _worker_names(rank, n, tier):
                 kind_, detail, text = bad
                 if nm.endswith('\\'):
                     kind_ = kind_ + ':name-ending-in-backslash'
+                if nm == '':
+                    kind_ = kind_ + ':light-without-a-name'
                 _note(st, (kind_, detail, text))
     return st
 
@@ -293,7 +299,7 @@ def run(tier, seed):
         'distinct_nontrivial': total,
         'rule': 'one capture->compile->replay round trip per case: each raw component over all 65536 values (two backgrounds); all 6^4 '
                 'boundary combinations x power x {plain, 2-zone strip, 2x2 matrix} x replay-time states; all populations of <=3 lights over 9 '
-                'light kinds x 3 states x 3 replay-time states; every printable Latin-1 character in 4 name positions x 3 light kinds; every ordered population of 2..3 lights over '
+                'light kinds x 3 states x 3 replay-time states; every Latin-1 character (control characters included; not NUL, quote, CR, LF) and four beyond Latin-1 in 4 name positions x 3 light kinds; every ordered population of 2..3 lights over '
                 '{plain, 1-zone, 2-zone, 1x1 matrix} x every colouring of all their zones/cells/colours from a palette of 2 (thorough 3) colours',
         'exhaustive': True,
         'round_trips_per_part': per,
